@@ -18,9 +18,11 @@ pub fn run(sc: &Value) -> Value {
     let white = Source::Solid(SolidSource { r: 255, g: 255, b: 255, a: 255 });
     let mut dt = DrawTarget::new(w, h);
     let mut extra = serde_json::Map::new();
+    let render = sc["render"].as_bool().unwrap_or(true);
     let r = std::panic::catch_unwind(std::panic::AssertUnwindSafe(|| {
         dt.set_transform(&ctm);
         match kind {
+            _ if !render => {}
             "stroke" => {
                 let style = parse_style(&sc["style"], den);
                 dt.stroke(&path, &white, &style, &DrawOptions::new());
@@ -83,7 +85,7 @@ pub fn run(sc: &Value) -> Value {
 /// rules, curves sampled at 32 parameter steps, arcs on the exact circle; device points in
 /// 1/1024 px.  Returns the fill loops and the deviation bound (in 1/1024 px).
 pub fn fine_loops(ops: &Value, den: f64, ctm: &Transform) -> (Value, i64) {
-    let (subs, eps) = fine_subs(ops, den, ctm);
+    let (subs, eps) = fine_subs(ops, den, ctm, true);
     let js: Vec<Value> = subs.iter().map(|(l, _)| Value::Array(l.iter().map(|p| json!([p.0, p.1])).collect())).collect();
     (Value::Array(js), eps)
 }
@@ -91,7 +93,7 @@ pub fn fine_loops(ops: &Value, den: f64, ctm: &Transform) -> (Value, i64) {
 /// Stroke view of the same outline: every subpath with its closed flag (a closed subpath gets its
 /// start appended), repeated points dropped, single points dropped.
 pub fn fine_stroke_subs(ops: &Value, den: f64, ctm: &Transform) -> (Value, i64) {
-    let (subs, eps) = fine_subs(ops, den, ctm);
+    let (subs, eps) = fine_subs(ops, den, ctm, false);
     let mut js = Vec::new();
     for (l, closed) in subs {
         let mut pts = l.clone();
@@ -106,7 +108,7 @@ pub fn fine_stroke_subs(ops: &Value, den: f64, ctm: &Transform) -> (Value, i64) 
     (Value::Array(js), eps)
 }
 
-fn fine_subs(ops: &Value, den: f64, ctm: &Transform) -> (Vec<(Vec<(i64, i64)>, bool)>, i64) {
+fn fine_subs(ops: &Value, den: f64, ctm: &Transform, for_fill: bool) -> (Vec<(Vec<(i64, i64)>, bool)>, i64) {
     const N: usize = 32;
     let dev = |x: f64, y: f64| -> (f64, f64) {
         (x * ctm.m11 as f64 + y * ctm.m21 as f64 + ctm.m31 as f64, x * ctm.m12 as f64 + y * ctm.m22 as f64 + ctm.m32 as f64)
@@ -229,7 +231,30 @@ fn fine_subs(ops: &Value, den: f64, ctm: &Transform) -> (Vec<(Vec<(i64, i64)>, b
     }
     flush(&mut cur, &mut loops, false);
     let q = |v: f64| (v * 1024.0).round() as i64;
-    (loops.iter().map(|(l, c)| (l.iter().map(|p| (q(p.0), q(p.1))).collect(), *c)).collect(), (eps * 1024.0).ceil() as i64 + 2)
+    // long straight pieces are subdivided (<= 3 px) so that the specification's 31-bit cross
+    // products stay in range on large surfaces; the outline is unchanged
+    let subdivide = |l: &Vec<(f64, f64)>, closed: bool| -> Vec<(f64, f64)> {
+        let mut o = Vec::new();
+        let n = l.len();
+        let m = if closed { n } else { n - 1 };
+        for i in 0..m {
+            let a = l[i];
+            let b = l[(i + 1) % n];
+            o.push(a);
+            let d = (b.0 - a.0).abs().max((b.1 - a.1).abs());
+            let k = (d / 3.0).ceil() as usize;
+            for j in 1..k {
+                let t = j as f64 / k as f64;
+                o.push((a.0 + (b.0 - a.0) * t, a.1 + (b.1 - a.1) * t));
+            }
+        }
+        if !closed {
+            o.push(l[n - 1]);
+        }
+        o
+    };
+    // fill loops are implicitly closed, stroke subpaths are handled by the caller (closed flag kept)
+    (loops.iter().map(|(l, c)| (subdivide(l, for_fill).iter().map(|p| (q(p.0), q(p.1))).collect(), *c)).collect(), (eps * 1024.0).ceil() as i64 + 2)
 }
 
 pub fn drive(_fam: &str, _seed: u64, _n: usize) -> Vec<Value> {
